@@ -84,6 +84,10 @@ type Input struct {
 }
 
 func (input *Input) InterpolateParameters(interpolator ParametersInterpolator) error {
+	if input == nil {
+		return fmt.Errorf("empty input")
+	}
+
 	input.If = interpolator(input.If)
 
 	loader, err := input.loader()
@@ -150,6 +154,10 @@ func (input *Input) shouldLoadSchemas() (bool, error) {
 
 func (input *Input) LoadSchemas(ctx context.Context) (ast.Schemas, error) {
 	var err error
+
+	if input == nil {
+		return nil, fmt.Errorf("empty input")
+	}
 
 	shouldLoad, err := input.shouldLoadSchemas()
 	if err != nil {
